@@ -27,13 +27,20 @@ OpOf(o) ==
   ELSE IF o.kind = "ins" THEN [kind |-> "ins", id |-> o.id, val |-> o.val]
   ELSE [kind |-> "del", id |-> o.id, actor |-> o.actor, counter |-> o.counter]
 
+\* layer-A view of an op: WHAT is inserted / deleted; which identifier an insert gets is the allocation
+\* strategy (layer B) -- a different identifier shows up as drift and, if it is wrong, in the reads
+OpAView(o) ==
+  IF Kind = "glist" THEN [elem |-> o.id[Len(o.id)][2]]
+  ELSE IF o.kind = "ins" THEN [kind |-> "ins", val |-> o.val, tag |-> o.id[Len(o.id)][2]]
+  ELSE o
+
 Verdicts(e, r) ==
   LET post == PostOf(e.post)
       K == know'[r]
       b1 == IF post # st'[r] THEN <<[l |-> l, kind |-> "drift"]>> ELSE <<>>
       b2 == IF e.reads.read # ExpSeq(ops', K) \/ e.reads.len # Len(ExpSeq(ops', K))
             THEN <<[l |-> l, kind |-> "seq"]>> ELSE <<>>
-      b3 == IF e.a = "gen" /\ OpOf(e.op[1]) # ops'[Len(ops')].op THEN <<[l |-> l, kind |-> "op"]>> ELSE <<>>
+      b3 == IF e.a = "gen" /\ OpAView(OpOf(e.op[1])) # OpAView(ops'[Len(ops')].op) THEN <<[l |-> l, kind |-> "op"]>> ELSE <<>>
       \* a local edit lands where the sequential-list model puts it
       b4 == IF e.a = "gen" /\ e.reads.read # VecModel(st[r], ActorOf[r], e.x)
             THEN <<[l |-> l, kind |-> "index"]>> ELSE <<>>
